@@ -195,6 +195,8 @@ def obligations(prop, tier):
     q = tier == "quick"
     out = []
     if prop == "C05":
+        out.append(dict(name="order_once_sameset_assertions_on", module="harness.iters", body="c05_body", cfg={"N": 4 if q else 6}, assertions=1, depth=3, bounds="N<=%d with ANYTREE_ASSERTIONS=1" % (4 if q else 6),
+                        picked="n, parent vector, start, consume", symbolic="-"))
         out.append(dict(name="order_once_sameset_listnode", module="harness.iters", body="c05_body", cfg={"N": 4 if q else 5, "cls": "list"}, depth=3, bounds="N<=%d, node class that is also a list subclass" % (4 if q else 5),
                         picked="n, parent vector, start, consume", symbolic="-"))
         out.append(dict(name="order_once_sameset_eq", module="harness.iters", body="c05_body", cfg={"N": 4 if q else 5, "cls": "eq"}, depth=3, bounds="N<=%d, node class whose instances all compare equal and are falsy" % (4 if q else 5),
@@ -244,6 +246,7 @@ def obligations(prop, tier):
                 out.append(_mut("history3_%s" % cls, "hist_body", {"cls": cls, "N": 2, "L": 1, "K": 3}, depth=5, bounds="N<=2, 3 successive calls"))
         for cls in ("node", "anynode", "symlink"):
             out.append(_mut("ctor_%s" % cls, "ctor_body", {"cls": cls, "N": 3 if q else 4, "L": 2}, depth=4, bounds="N<=%d existing nodes, children sequences <= 2" % (3 if q else 4)))
+        out.append(_mut("reentrant_pre_attach", "reentrant_body", {"N": 3 if q else 4}, depth=4, bounds="N<=%d, parent= with a _pre_attach hook that detaches the new parent's first child, both mixins" % (3 if q else 4)))
         out.append(_mut("ctor_node_valsem", "ctor_body", {"cls": "node", "valsem": True, "N": 3 if q else 4, "L": 1}, depth=4,
                         bounds="existing nodes are falsy/all-equal Node subclasses; parent may also be the non-node value 0"))
     elif prop == "C03":
@@ -273,6 +276,9 @@ def obligations(prop, tier):
         out.append(_mut("lockstep_valuesem", "c18_body", {"N": N, "L": 2, "faults": "none", "mixcls": "mixin_eq", "lightcls": "light_eq"}, depth=5,
                         bounds="N<=%d, no faults, node classes whose instances all compare equal, are empty and falsy" % N))
     elif prop == "C04":
+        if not q:
+            out.append(dict(name="nav7_mixin", module="harness.navigate", body="c04_body", cfg={"cls": "mixin", "N": 7, "move": False, "single_tree7": True}, depth=6, bounds="N<=7 (single trees), no mutation",
+                            picked="n, parent vector", symbolic="-"))
         out.append(dict(name="nav_light_eq", module="harness.navigate", body="c04_body", cfg={"cls": "light_eq", "N": 4 if q else 5, "move": False}, depth=4, bounds="N<=%d, LightNodeMixin class with value/container semantics" % (4 if q else 5),
                         picked="n, parent vector (forest)", symbolic="-"))
         out.append(dict(name="nav_mixin_eq", module="harness.navigate", body="c04_body", cfg={"cls": "mixin_eq", "N": 4 if q else 5, "move": False}, depth=4, bounds="N<=%d, all-equal node class" % (4 if q else 5),
@@ -284,6 +290,8 @@ def obligations(prop, tier):
             out.append(dict(name="nav_%s" % cls, module="harness.navigate", body="c04_body", cfg={"cls": cls, "N": N + 1, "move": False}, depth=4 if q else 5,
                             bounds="N<=%d" % (N + 1), picked="n, parent vector (forest)", symbolic="-"))
     elif prop == "C15":
+        out.append(dict(name="walk_tree6", module="harness.navigate", body="c15_body", cfg={"cls": "mixin", "N": 6, "exactN": True, "single_tree": True}, depth=5, bounds="single trees with exactly 6 nodes",
+                        picked="parent vector, start, end", symbolic="-"))
         out.append(dict(name="walk_after_move", module="harness.navigate", body="c15_move_body", cfg={"cls": "mixin", "N": 4 if q else 5}, depth=4, bounds="N<=%d: walk, one parent= anywhere, same walk again" % (4 if q else 5),
                         picked="n, parent vector (forest), start, end, moved node, new parent", symbolic="-"))
         out.append(dict(name="walk_mixin_eq", module="harness.navigate", body="c15_body", cfg={"cls": "mixin_eq", "N": 4 if q else 5}, depth=4, bounds="N<=%d, all-equal node class" % (4 if q else 5),
@@ -293,6 +301,9 @@ def obligations(prop, tier):
             out.append(dict(name="walk_%s" % cls, module="harness.navigate", body="c15_body", cfg={"cls": cls, "N": N}, depth=4 if q else 5,
                             bounds="N<=%d" % N, picked="n, parent vector (forest), start, end", symbolic="-"))
     elif prop == "C14":
+        for fn, body in (("find", "findall_body"), ("find_by_attr", "by_attr_body")):
+            out.append(dict(name="valsem_" + fn, module="harness.searching", body=body, cfg={"fn": fn, "N": 3, "cached": False, "valsem": True}, depth=6,
+                            bounds="N<=3, node class with value/container semantics (falsy)", picked="n, parent vector, start", symbolic="maxlevel, value, presence/stop/filter flags"))
         N = 3 if q else 4
         for cached in (False, True):
             for fn, body in (("findall", "findall_body"), ("find", "findall_body"), ("findall_by_attr", "by_attr_body"), ("find_by_attr", "by_attr_body")):
